@@ -2,105 +2,184 @@
 """
 C06 extraction (DESIGN App. E, row `traits_graph.rs, csr.rs, adj.rs`): for every `impl GetAdjacencyMatrix for T`
 in /repo/src read off
-  * which size function (`node_count` / `node_bound`) `adjacency_matrix` uses for the matrix width when BUILDING and
-    which one `is_adjacent` uses when READING (`stored` = the type keeps its own matrix, `AdjMatrix = ()`),
-  * the bit index expressions of both,
+  * which size function (`node_count` / `node_bound`) gives the matrix width when `adjacency_matrix` BUILDS the bitmap and
+    when `is_adjacent` READS it (`stored` = the type keeps its own matrix: `adjacency_matrix` has an empty body),
+  * the capacity of the bitmap and the bit index expressions of both, in canonical form over (n, s, t) = (width,
+    source/row index, target/column index),
   * whether the type is `NodeCompactIndexable`,
 and write lean/PetgraphModel/Extracted/AdjWidth.lean.  Theorems/C06.lean states that building and reading agree
 (a regression of D8 — StableGraph read with node_count — then breaks a proof obligation).
-Fail-closed: an unrecognised source shape produces a file whose build fails.
 
-usage: tools/extract_c06.py [repo_root]     (default /repo)
+The bodies are parsed (tools/rustexpr.py): locals are inlined, so the name of the width local, `let`s for the row/column
+indices, tuple lets, `let undirected = !self.is_directed()`, UFCS calls (`NodeIndexable::node_bound(self)`), a private
+helper fn computing the bit, and any commutative/associative spelling of the index expression all give the same text.
+
+One item per implementing type (`adjwidth.<T>`); outcomes recognised / changed / unrecognised / broken as in tools/tielib.py.
+Fail-closed (broken): a source file missing, or the number of `impl GetAdjacencyMatrix` blocks is not the expected six.
+
+usage: tools/extract_c06.py [repo_root] [--write-baseline]     (default /repo)
 """
 import os, re, sys
+sys.path.insert(0, os.path.dirname(os.path.abspath(__file__)))
+import rustexpr as R
+from rustexpr import Unrecognised
+from tielib import Tie, Broken, ROOT
 
-ROOT = os.path.dirname(os.path.dirname(os.path.abspath(__file__)))
-REPO = sys.argv[1] if len(sys.argv) > 1 else "/repo"
 OUT = os.path.join(ROOT, "lean", "PetgraphModel", "Extracted", "AdjWidth.lean")
 FILES = ["src/traits_graph.rs", "src/csr.rs", "src/adj.rs", "src/graphmap.rs", "src/matrix_graph.rs"]
 COMPACT_FILES = ["src/graph_impl/mod.rs", "src/graph_impl/stable_graph/mod.rs", "src/csr.rs", "src/adj.rs",
                  "src/graphmap.rs", "src/matrix_graph.rs"]
+EXPECTED = ["Graph", "StableGraph", "Csr", "List", "GraphMap", "MatrixGraph"]
+SIZE_FNS = {"node_count": "nodeCount", "node_bound": "nodeBound"}
+HDR = re.compile(r"\bGetAdjacencyMatrix\s+for\s+&?\s*(?:'\w+\s+)?(\w+)")
 
 
-class Broken(Exception):
-    pass
+def size_atoms(e):
+    return {x for x in R.walk(e) if x[0] == "mcall" and x[2] in SIZE_FNS and x[1] == ("path", ("self",)) and not x[3]}
 
 
-def block_after(src, start):
-    """text of the brace block that opens at or after `start`"""
-    i = src.index("{", start)
-    depth, j = 0, i
-    while j < len(src):
-        if src[j] == "{":
-            depth += 1
-        elif src[j] == "}":
-            depth -= 1
-            if depth == 0:
-                return src[i:j + 1]
-        j += 1
-    raise Broken("unbalanced braces")
+def canon_bit(e, atoms, what):
+    """canonical polynomial of a bit index / capacity over n, s, t; `atoms`: canonical node -> name"""
+    v = R.norm(e)
+    sz = size_atoms(v)
+    if len(sz) > 1:
+        raise Unrecognised("%s mixes two size functions" % what)
+    m = dict(atoms)
+    for a in sz:
+        m[a] = ("path", ("n",))
+    v = R.norm(R.subst(v, m))
+    free = {x for x in R.walk(v) if x[0] not in ("poly", "num") }
+    bad = [x for x in free if not (x[0] == "path" and x[1] in (("n",), ("s",), ("t",)))]
+    if bad:
+        raise Unrecognised("%s is not arithmetic over the width and the two indices: %s" % (what, R.show(bad[0])))
+    kinds = {SIZE_FNS[a[2]] for a in sz}
+    return R.to_lean(v), kinds
 
 
-def fn_body(block, name):
-    m = re.search(r"fn\s+%s\s*\(" % name, block)
-    if not m:
-        raise Broken("no fn %s" % name)
-    return block_after(block, m.end())
+def analyse(ty, fns, helpers):
+    """-> (build_width, read_width, [lean defs])"""
+    by_name = {}
+    for f in fns:
+        by_name.setdefault(f.name, []).append(f)
+    for need in ("adjacency_matrix", "is_adjacent"):
+        if len(by_name.get(need, [])) != 1:
+            raise Broken("impl GetAdjacencyMatrix for %s: expected one fn %s, found %d" % (ty, need, len(by_name.get(need, []))))
+    b, r = by_name["adjacency_matrix"][0], by_name["is_adjacent"][0]
+    for f in (b, r):
+        if f.body is None:
+            raise Unrecognised("body of %s::%s does not parse: %s" % (ty, f.name, f.error))
+    if not b.body[1] and b.body[2] is None:
+        return "stored", "stored", []
+    # ---- build
+    caps = [(c[2][0], g, l) for c, g, l, _ in R.collect_inlined(
+        b.body, lambda x: x[0] == "call" and x[1][0] == "path" and x[1][1][-1] == "with_capacity" and len(x[2]) == 1, helpers)]
+    puts = [(c[3][0], g, l) for c, g, l, _ in R.collect_inlined(
+        b.body, lambda x: x[0] == "mcall" and ((x[2] in ("put", "insert") and len(x[3]) == 1) or
+                                               (x[2] == "set" and len(x[3]) == 2 and R.norm(x[3][1]) == ("bool", True))), helpers)]
+    if len(caps) != 1 or caps[0][1] or caps[0][2]:
+        raise Unrecognised("%s::adjacency_matrix: expected one unconditional `with_capacity(..)`, found %d" % (ty, len(caps)))
+    if not puts:
+        raise Unrecognised("%s::adjacency_matrix: no bit is set" % ty)
+    loops = puts[0][2]
+    if len(loops) != 1 or any(p[2] != loops for p in puts):
+        raise Unrecognised("%s::adjacency_matrix: the bits are not set in one loop over the edge references" % ty)
+    pat, it = loops[0]
+    if not R.find(it, lambda x: x[0] == "mcall" and x[2] == "edge_references") or pat[0] != "pid":
+        raise Unrecognised("%s::adjacency_matrix: the loop is not `for <edge> in self.edge_references()`" % ty)
+    ev = ("path", (pat[1],))
+    atoms = {R.norm(("mcall", ("mcall", ev, "source", ()), "index", ())): ("path", ("s",)),
+             R.norm(("mcall", ("mcall", ev, "target", ()), "index", ())): ("path", ("t",))}
+    undirected = R.norm(("un", "!", ("mcall", ("path", ("self",)), "is_directed", ())))
+    main, sym = [], []
+    for e, guards, _ in puts:
+        gs = [(R.norm(c) if pol else R.Normaliser().negate(R.norm(c))) for c, pol in guards]
+        if not gs:
+            main.append(e)
+        elif gs == [undirected]:
+            sym.append(e)
+        else:
+            raise Unrecognised("%s::adjacency_matrix: a bit is set under a condition other than `!self.is_directed()`" % ty)
+    if len(main) != 1 or len(sym) > 1:
+        raise Unrecognised("%s::adjacency_matrix: expected one unconditional put and at most one for undirected graphs" % ty)
+    kinds = set()
+    cap, k = canon_bit(caps[0][0], atoms, "%s: bitmap capacity" % ty); kinds |= k
+    bb, k = canon_bit(main[0], atoms, "%s: bit of an edge" % ty); kinds |= k
+    defs = ["def bitCap_%s (n : Nat) : Nat := %s" % (ty, cap),
+            "def bitBuild_%s (n s t : Nat) : Nat := %s" % (ty, bb)]
+    if sym:
+        bs, k = canon_bit(sym[0], atoms, "%s: mirrored bit of an undirected edge" % ty); kinds |= k
+        defs.append("def bitBuildSym_%s (n s t : Nat) : Nat := %s" % (ty, bs))
+    if len(kinds) != 1:
+        raise Unrecognised("%s::adjacency_matrix: width is not one of node_count()/node_bound() (%s)" % (ty, sorted(kinds)))
+    bw = kinds.pop()
+    # ---- read
+    params = r.param_names()
+    if len(params) != 4 or params[2] is None or params[3] is None:
+        raise Unrecognised("%s::is_adjacent: parameters" % ty)
+    reads = [(c[3][0], g, l, role) for c, g, l, role in R.collect_inlined(
+        r.body, lambda x: x[0] == "mcall" and x[2] in ("contains", "is_set") and len(x[3]) == 1, helpers)]
+    reads += [(c[2], g, l, role) for c, g, l, role in R.collect_inlined(r.body, lambda x: x[0] == "index", helpers) if role == "tail"]
+    if len(reads) != 1 or reads[0][1] or reads[0][2]:
+        raise Unrecognised("%s::is_adjacent: expected one unconditional `matrix.contains(..)`, found %d" % (ty, len(reads)))
+    atoms_r = {R.norm(("mcall", ("path", (params[2],)), "index", ())): ("path", ("s",)),
+               R.norm(("mcall", ("path", (params[3],)), "index", ())): ("path", ("t",))}
+    br, kr = canon_bit(reads[0][0], atoms_r, "%s: bit read by is_adjacent" % ty)
+    if len(kr) != 1:
+        raise Unrecognised("%s::is_adjacent: width is not one of node_count()/node_bound()" % ty)
+    defs.append("def bitRead_%s (n s t : Nat) : Nat := %s" % (ty, br))
+    return bw, kr.pop(), defs
 
 
-def width_of(body):
-    m = re.findall(r"let\s+n\s*=\s*self\.(\w+)\(\)\s*;", body)
-    if len(m) != 1 or m[0] not in ("node_count", "node_bound"):
-        raise Broken("width statement not recognised: %r" % m)
-    return {"node_count": "nodeCount", "node_bound": "nodeBound"}[m[0]]
-
-
-def expr_to_lean(e, kind):
-    e = e.strip()
-    subs = [("edge.source().index()", "s"), ("edge.target().index()", "t")] if kind == "build" else \
-           [("a.index()", "a"), ("b.index()", "b")]
-    for k, v in subs:
-        e = e.replace(k, v)
-    if not re.fullmatch(r"[stabn*+() ]+", e):
-        raise Broken("bit expression not recognised: %r" % e)
-    return e
-
-
-def main():
-    compact = set()
+def main(repo, write_baseline):
+    T = Tie("extract_c06", write_baseline)
+    compact, found = set(), []
+    problems = []
     for f in COMPACT_FILES:
-        src = open(os.path.join(REPO, f)).read()
-        for m in re.finditer(r"NodeCompactIndexable\s+for\s+&?\s*(\w+)", src):
+        try:
+            src = open(os.path.join(repo, f)).read()
+        except OSError as e:
+            problems.append("cannot read %s" % f); continue
+        for m in re.finditer(r"NodeCompactIndexable\s+for\s+&?\s*(?:'\w+\s+)?(\w+)", src):
             compact.add(m.group(1))
-    impls, defs = [], []
     for f in FILES:
-        src = open(os.path.join(REPO, f)).read()
-        for m in re.finditer(r"GetAdjacencyMatrix\s+for\s+&?\s*(\w+)", src):
-            # skip `use` lines and delegation macros
-            line_start = src.rfind("\n", 0, m.start()) + 1
-            head = src[max(0, m.start() - 400):m.start()]
-            if "impl" not in head.split("}")[-1]:
-                continue
-            ty = m.group(1)
-            block = block_after(src, m.end())
-            if re.search(r"type\s+AdjMatrix\s*=\s*\(\)\s*;", block):
-                impls.append((ty, f, ty in compact, "stored", "stored"))
-                continue
-            b = fn_body(block, "adjacency_matrix")
-            r = fn_body(block, "is_adjacent")
-            impls.append((ty, f, ty in compact, width_of(b), width_of(r)))
-            mi = re.search(r"let\s+i\s*=\s*([^;]+);", b)
-            mj = re.search(r"let\s+j\s*=\s*([^;]+);", b)
-            mr = re.search(r"let\s+index\s*=\s*([^;]+);", r)
-            if not mi or not mr:
-                raise Broken("bit index statements not found for %s" % ty)
-            defs.append("def bitBuild_%s (n s t : Nat) : Nat := %s" % (ty, expr_to_lean(mi.group(1), "build")))
-            if mj:
-                defs.append("def bitBuildSym_%s (n s t : Nat) : Nat := %s" % (ty, expr_to_lean(mj.group(1), "build")))
-            defs.append("def bitRead_%s (n a b : Nat) : Nat := %s" % (ty, expr_to_lean(mr.group(1), "read")))
-    if len(impls) < 6:
-        raise Broken("expected six GetAdjacencyMatrix impls, found %d" % len(impls))
-    lines = ["-- GENERATED by tools/extract_c06.py from %s/src — do not edit" % REPO,
+        try:
+            src = open(os.path.join(repo, f)).read()
+        except OSError:
+            problems.append("cannot read %s" % f); continue
+        try:
+            F = R.parse_file(src)
+        except Unrecognised as e:
+            problems.append("%s does not tokenise: %s" % (f, e)); continue
+        helpers = {g.name: g for g in F.fns if g.impl is None}
+        seen = []
+        for g in F.fns:
+            if g.impl:
+                m = HDR.search(g.impl)
+                if m and (m.group(1), g.impl) not in seen:
+                    seen.append((m.group(1), g.impl))
+        for ty, hdr in seen:
+            found.append((ty, f, [g for g in F.fns if g.impl == hdr], helpers))
+    types = [x[0] for x in found]
+    parts, rows = [], []
+    def count_ok():
+        if problems:
+            raise Broken("; ".join(problems))
+        if sorted(types) != sorted(EXPECTED):
+            raise Broken("expected GetAdjacencyMatrix impls for %s, found %s" % (", ".join(EXPECTED), ", ".join(types) or "none"))
+        return ""
+    T.item("adjwidth.impl_count", ["C06"], "src/{traits_graph,csr,adj,graphmap,matrix_graph}.rs:impl GetAdjacencyMatrix", count_ok, flag="impls")
+    for ty in EXPECTED:
+        cands = [x for x in found if x[0] == ty]
+        def thunk(ty=ty, cands=cands):
+            if len(cands) != 1:
+                raise Broken("%d impl GetAdjacencyMatrix for %s" % (len(cands), ty))
+            _, f, fns, helpers = cands[0]
+            bw, rw, defs = analyse(ty, fns, helpers)
+            row = 'def impl_%s : Impl := ⟨"%s", "%s", %s, .%s, .%s⟩' % (ty, ty, f, "true" if ty in compact else "false", bw, rw)
+            return "\n".join([row] + defs) + "\n"
+        where = "%s:impl GetAdjacencyMatrix for %s" % (cands[0][1] if cands else "?", ty)
+        parts.append(T.item("adjwidth." + ty, ["C06"], where, thunk))
+    lines = ["-- GENERATED by tools/extract_c06.py from %s/src — do not edit" % "/repo",
              "namespace PetgraphModel.Extracted.AdjWidth",
              "",
              "/-- the size function that gives the matrix width (`stored`: the type keeps its own matrix) -/",
@@ -116,27 +195,18 @@ def main():
              "  read : Width",
              "  deriving Repr",
              "",
-             "def impls : List Impl := ["]
-    lines += ["  ⟨\"%s\", \"%s\", %s, .%s, .%s⟩%s" % (ty, f, "true" if c else "false", b, r, "," if k + 1 < len(impls) else "")
-              for k, (ty, f, c, b, r) in enumerate(impls)]
-    lines += ["]", "", "/-- bit set by `adjacency_matrix` for an edge `s → t` (`Sym`: the second bit of an undirected edge);",
-              "bit read by `is_adjacent(a, b)`; `n` = the width -/"]
-    lines += defs
-    lines += ["", "end PetgraphModel.Extracted.AdjWidth", ""]
-    return "\n".join(lines)
+             "/-! per implementing type: the row of the table; the capacity of the bitmap; the bit set by `adjacency_matrix` for an",
+             "edge `s → t` (`Sym`: the second bit of an undirected edge); the bit read by `is_adjacent(s, t)`; `n` = the width.",
+             "Canonical form (sorted sum of sorted products) whatever the spelling in the source. -/",
+             ""]
+    lines += parts
+    lines += ["def impls : List Impl := [%s]" % ", ".join("impl_" + t for t in EXPECTED), "", T.flags_lean(),
+              "end PetgraphModel.Extracted.AdjWidth", ""]
+    return T, "\n".join(lines)
 
 
 if __name__ == "__main__":
-    os.makedirs(os.path.dirname(OUT), exist_ok=True)
-    try:
-        text = main()
-        rc = 0
-    except (Broken, OSError, ValueError) as e:
-        text = ("-- GENERATED by tools/extract_c06.py — TIE BROKEN: %s\n"
-                "example : False := by trivial  -- the source shape is no longer recognised\n" % e)
-        rc = 1
-        print("extract_c06: tie broken:", e)
-    old = open(OUT).read() if os.path.exists(OUT) else None
-    if old != text:
-        open(OUT, "w").write(text)
-    sys.exit(rc)
+    args = [a for a in sys.argv[1:] if a != "--write-baseline"]
+    repo = args[0] if args else "/repo"
+    T, text = main(repo, "--write-baseline" in sys.argv)
+    sys.exit(T.finish(OUT, text))
